@@ -34,6 +34,10 @@ type Spec struct {
 type Case struct {
 	H     gen.History `json:"history"`
 	Specs []Spec      `json:"specs"`
+	// NarrowInts: the integers of the sortable field "rank" are stored in the narrowest integer type that
+	// holds them, as a MessagePack client with compact encoding sends them (int8, int16, uint16, ...): a
+	// number is the same sort key whatever its width
+	NarrowInts bool `json:"narrowInts,omitempty"`
 }
 
 // sortable top-level extra fields with one value type each
@@ -81,6 +85,8 @@ func genCase(t *rapid.T) Case {
 	c := Case{H: gen.History{Schema: schema, MaxPointSize: 1 << 20, CacheLimit: rapid.SampledFrom([]int64{-1, 0}).Draw(t, "cacheLimit")}}
 	g := gen.NewHistoryGen(t, schema, c.H.MaxPointSize, ho)
 	n := rapid.IntRange(1, ho.MaxSteps).Draw(t, "nsteps")
+	narrow := rapid.IntRange(0, 3).Draw(t, "narrowInts") == 0
+	c.NarrowInts = narrow
 	for i := 0; i < n; i++ {
 		st := g.Next()
 		// give inserted documents sortable extra fields (one type per key, sometimes missing)
@@ -89,6 +95,9 @@ func genCase(t *rapid.T) Case {
 				d := st.Points[pi].Doc
 				if rapid.IntRange(0, 3).Draw(t, fmt.Sprintf("hr%d.%d", i, pi)) > 0 {
 					d["rank"] = int64(rapid.IntRange(-2, 3).Draw(t, fmt.Sprintf("rank%d.%d", i, pi)))
+					if narrow && rapid.Bool().Draw(t, fmt.Sprintf("rankwide%d.%d", i, pi)) {
+						d["rank"] = rapid.SampledFrom([]int64{-5000000000, -70000, -200, -5, 40, 200, 300, 70000, 5000000000}).Draw(t, fmt.Sprintf("rankw%d.%d", i, pi))
+					}
 				}
 				if rapid.IntRange(0, 3).Draw(t, fmt.Sprintf("hp%d.%d", i, pi)) > 0 {
 					d["price"] = float64(rapid.IntRange(-4, 8).Draw(t, fmt.Sprintf("price%d.%d", i, pi))) / 2
@@ -385,6 +394,40 @@ func expandNaN(steps []gen.Step) ([]gen.Step, int) {
 	return out, n
 }
 
+// narrowRanks returns the steps with every "rank" stored in the narrowest integer type that holds it.
+func narrowRanks(steps []gen.Step) []gen.Step {
+	out := make([]gen.Step, len(steps))
+	for i, st := range steps {
+		out[i] = st
+		copied := false
+		for pi, p := range st.Points {
+			v, ok := p.Doc["rank"].(int64)
+			if !ok {
+				continue
+			}
+			if !copied {
+				out[i].Points = append([]model.Point(nil), out[i].Points...)
+				copied = true
+			}
+			d := model.CloneDoc(out[i].Points[pi].Doc)
+			switch {
+			case v >= 0 && v <= math.MaxUint8 && v%2 == 0:
+				d["rank"] = uint8(v)
+			case v >= math.MinInt8 && v <= math.MaxInt8:
+				d["rank"] = int8(v)
+			case v >= 0 && v <= math.MaxUint16:
+				d["rank"] = uint16(v)
+			case v >= math.MinInt16 && v <= math.MaxInt16:
+				d["rank"] = int16(v)
+			case v >= math.MinInt32 && v <= math.MaxInt32:
+				d["rank"] = int32(v)
+			}
+			out[i].Points[pi] = model.Point{Id: p.Id, Doc: d}
+		}
+	}
+	return out
+}
+
 // nanKey says whether one of the sort keys of the document is NaN. Where NaN sorts is not specified;
 // rows with such a key are left out of the order checks (the rows around them must still be in order).
 func nanKey(doc map[string]any, opts []models.SortOption) bool {
@@ -408,6 +451,10 @@ func execCase(c Case) (res vt.Result) {
 	steps, nans := expandNaN(c.H.Steps)
 	if nans > 0 {
 		rec.Count("documents_with_a_nan_sort_value", int64(nans))
+	}
+	if c.NarrowInts {
+		steps = narrowRanks(steps)
+		rec.Count("cases_with_integers_of_mixed_width", 1)
 	}
 	for i, st := range steps {
 		if _, err := r.Apply(st); err != nil {
